@@ -354,6 +354,17 @@ func (endp *Endpoint) setupListeners(addresses []config.Endpoint) error {
 }
 
 func (endp *Endpoint) NewSession(conn *smtp.Conn) (smtp.Session, error) {
+	// go-smtp calls NewSession for each HELO/EHLO/LHLO command. For a
+	// repeated one it replaces the session object without calling Logout on
+	// the previous one and without resetting its own transaction state. Keep
+	// using the existing session, otherwise its delivery is never aborted and
+	// its limits are never released.
+	if conn != nil {
+		if sess, ok := conn.Session().(*Session); ok && sess != nil {
+			return sess, nil
+		}
+	}
+
 	sess := endp.newSession(conn)
 
 	// Executed before authentication and session initialization.
